@@ -32,6 +32,7 @@ EXPLANATION = (
     ' (R5) for a well-formed exception answer (function code = cmd | 0x80, one code byte, RTU: correct CRC) to a read, write and write-multi command every validator outcome other than the rejection raise is refuted.'
     ' (R6) no loop callback schedules a method of the protocol object after completing the response future: the deferred call would act on the next request.'
     ' (R7, shared with C05.R2) the retry counter is reset wherever a request ends, a rejection included.'
+    ' (R8) on its way out of send_request the rejection does not reach an unguarded release of a lock that is not held (RuntimeError would replace it; lock typestate of C06.R2).'
 )
 
 
@@ -143,6 +144,7 @@ def check(ctx: Ctx, rep: Report):
     for o in _s7.obligations:
         if o.rule == "C05.R2":
             rep.obligations.append(type(o)("C08.R7", o.key, o.where, o.what, o.status, o.detail))
+    r8_not_replaced(ctx, rep, rejected)
     r2(ctx, rep, rejected)
     r3(ctx, rep, rejected, table)
     # ---- R4 shared with C07: an exception frame answering a retransmission must not be glued to a fragment of the
@@ -153,6 +155,32 @@ def check(ctx: Ctx, rep: Report):
         c07_r1(ctx, sub, ci)
     for o in sub.obligations:
         rep.obligations.append(type(o)("C08.R4", o.key, o.where, o.what, o.status, o.detail))
+
+
+def r8_not_replaced(ctx, rep, rejected):
+    """The rejection travels from the future through send_request (and its retry recursion) to the caller.  On the way
+    out it passes the lock hand-back; asyncio.Lock.release() on a lock that is not held raises RuntimeError, which
+    would replace the RequestRejectedException.  Lock typestate of C06.R2, read for the paths that carry a rejection."""
+    rep.rule("C08.R8", "the rejection is not replaced on its way out of send_request: after RequestRejectedException is raised no unguarded release of a lock the activation does not hold is reached (RuntimeError would replace it)", 2)
+    from .c06 import lock_typestate
+    from .proto import proto_classes, method
+    from ..effects import MaySuspend
+    from ..core import Report as _R
+    scratch = _R("C06", rep.tier)
+    ms = ctx.memo("maysuspend", lambda: MaySuspend(ctx.prog, ctx.res))
+    for ci in proto_classes(ctx):
+        sr = method(ctx, ci, "send_request")
+        rep.analysed_add("functions", sr.qualname)
+        ctx._cache.pop("lock-unheld-release", None)
+        lock_typestate(ctx, scratch, ci, sr, ms)
+        bad = None
+        for (fn, p, i) in ctx._cache.get("lock-unheld-release", {}).values():
+            carried = [ev for ev in p.events[:i] if ev.kind == "raise" and ev.data is not None and ctx.prog.is_subclass(ev.data, rejected)]
+            if carried and bad is None:
+                bad = (fn, p, i)
+        rep.check(bad is None, "C08.R8", "not-replaced:%s" % ci.name, sr.loc(), "%s.send_request hands the rejection on unchanged" % ci.name,
+                  bad=bad and "%s: the RequestRejectedException raised on this path reaches an unguarded release of a lock this activation no longer holds (%s): "
+                              "RuntimeError('Lock is not acquired') replaces the rejection [path %s]" % (sr.short, bad[0].loc(bad[1].events[bad[2]].node), bad[1].describe(10)))
 
 
 def r5_exception_frame(ctx, rep, fams, rejected):
